@@ -235,6 +235,8 @@ EvalE(e, st) ==
                  ELSE IF \E k \in DOMAIN l.v.m : KeyChars(k) = i.v.s
                         THEN Ok(l.v.m[CHOOSE k \in DOMAIN l.v.m : KeyChars(k) = i.v.s], l.st)
                         ELSE Ok(Nil, l.st)
+            \* a Go map[int]T holding the key 1 (GenPaths): an int index is a key, anything else is not
+            [] l.v.t = "imap" -> IF i.v.t # "int" THEN Err(l.st) ELSE IF i.v.n = 1 THEN Ok(l.v.m["one"], l.st) ELSE Ok(Nil, l.st)
             [] OTHER -> Err(l.st))
     [] e.t = "dot"  ->                                  \* field selection on a struct value
          LET l == EvalE(e.l, st) IN IF l.k # "ok" THEN NoUnk(l) ELSE
